@@ -286,6 +286,11 @@ def main():
             elif m and crash_forbidden and crash_in_repo_code(txt):
                 keep = os.path.join(found_dir, f"{pid}-{name}-seed{seed}-crash.log")
                 shutil.copyfile(logpath, keep)
+                cur = st + ".current"  # the case that was running (harness: vfshared.MarkCurrent)
+                if os.path.exists(cur):
+                    keepj = os.path.join(found_dir, f"{pid}-{name}-seed{seed}-crash.json")
+                    shutil.copyfile(cur, keepj)
+                    keep = keepj
                 violations.append((keep, "process crashed in repository code: " + m.group(1)[:300], name))
             else:
                 infra.append(f"{name}: exit {rc} without a recorded violation (log {logpath})\n" + tail(txt, 40))
